@@ -150,7 +150,13 @@ CONTRACTS[".public_input_indexes"] = lambda it, recv, a: VOpaque("public_input_i
 CONTRACTS["Composer::dense_public_inputs"] = lambda it, recv, a: VOpaque("dense_public_inputs", list(a))
 CONTRACTS["domain.size"] = lambda it, recv, a: Sym("n")
 CONTRACTS[".evaluate"] = lambda it, recv, a: VOpaque("eval", [recv, a[0]])
-CONTRACTS["quotient_poly::compute"] = lambda it, recv, a: ("fallible", "quotient_poly::compute => Err(CircuitUnsatisfied)", VOpaque("t", []))
+def c_quotient_call(it, recv, a):
+    # the quotient is opaque, but WHAT it is computed from is part of the prover's contract (data flow into round 3)
+    it.ctx.quotient_args = [x for x in a]
+    return ("fallible", "quotient_poly::compute => Err(CircuitUnsatisfied)", VOpaque("t", []))
+
+
+CONTRACTS["quotient_poly::compute"] = c_quotient_call
 CONTRACTS["linearization_poly::compute"] = lambda it, recv, a: VOpaque("r_poly", list(a))
 CONTRACTS["CommitKey::compute_aggregate_witness"] = lambda it, recv, a: VOpaque("aggregate_witness", list(a))
 CONTRACTS[".compute_permutation_vec"] = lambda it, recv, a: VOpaque("permutation_vec", [recv] + list(a))
@@ -199,7 +205,8 @@ CONTRACTS[".to_vec"] = c_to_vec
 
 
 def out_prove(res, args, ctx):
-    return {"transcript_log": list(ctx.log), "rng_draws": len(getattr(ctx, "rng", [])), "exits": list(ctx.exits), "result": res}
+    return {"transcript_log": list(ctx.log), "rng_draws": len(getattr(ctx, "rng", [])), "exits": list(ctx.exits), "result": res,
+            "quotient_inputs": list(getattr(ctx, "quotient_args", ["<quotient_poly::compute not called>"]))}
 
 
 def c_prove_inner(it, recv, a):
@@ -239,6 +246,12 @@ def c_prove_inner(it, recv, a):
         ch[k] = sq(n)
     # ---- round 3: quotient, split in four shares, re-randomised with 3 fresh draws that cancel in the recombination
     it.ctx.exits.append(("try", "quotient_poly::compute => Err(CircuitUnsatisfied)"))
+    # the quotient is computed from: the 8n domain, the compiled prover key, the masked z and wire polynomials, the public-input
+    # polynomial interpolating EVERY public input of the instance at its row, the cached vanishing inverses, and the seven challenges
+    dense = VOpaque("dense_public_inputs", [VOpaque("public_input_indexes", [inst]), pis, Sym(slf.path + ".size")])
+    it.ctx.quotient_args = [Sym(slf.path + ".quotient_domain"), Sym(slf.path + ".prover_key"), z_poly, VTuple(list(polys)),
+                            P(ifft_vec(domain, dense)), Sym(slf.path + ".vanishing_coset_inverses"),
+                            VTuple([ch["alpha"], ch["beta"], ch["gamma"], ch["range"], ch["logic"], ch["fixed"], ch["var"]])]
     n_ = P(Sym("n"))
     T = [P(t_slice(0, n_)), P(t_slice(n_, 2 * n_)), P(t_slice(2 * n_, 3 * n_)), P(t_slice(3 * n_, "end"))]
     b12, b13, b14 = rng_draw(it), rng_draw(it), rng_draw(it)
